@@ -245,7 +245,30 @@ def check_named(obj, want_bytes, viol, what, O):
             return False
     except (ImportError, AttributeError, TypeError):
         pass
+    # the same bytes handed out under a trusted name of either algorithm (what an object store of that format does): the name asked
+    # for explicitly must still be the hash under the algorithm asked for, whatever name the object carries (every 4th call)
+    _named_calls[0] += 1
+    if _named_calls[0] % 4 == 0:
+        from dulwich.object_format import SHA1, SHA256
+        s1, s256 = oid(obj.type_name, raw), oid(obj.type_name, raw, "sha256")
+        for label, kw in (("trusted-sha256-name", {"sha": s256}), ("trusted-sha1-name", {"sha": s1}), ("verified-sha256-name", {"verify_sha": s256, "object_format": SHA256}),
+                          ("verified-sha1-name", {"verify_sha": s1})):
+            if obj.type_name == b"tree" and "sha256" in label:
+                continue   # a tree's bytes embed ids of one algorithm: these trees are SHA-1 trees and are not offered as SHA-256 ones
+            try:
+                o2 = O.ShaFile.from_raw_string(obj.type_num, raw, **kw)
+                g1, g256 = o2.get_id(SHA1), o2.get_id(SHA256)
+            except Exception as e:
+                viol.append({"sig": "C01/%s/loaded-under-%s/raises-%s" % (what, label, type(e).__name__)})
+                return False
+            if g1 != s1 or g256 != s256:
+                viol.append({"sig": "C01/%s/loaded-under-%s/explicit-%s-id-is-not-that-hash" % (what, label, "sha1" if g1 != s1 else "sha256"),
+                             "got": (g1 if g1 != s1 else g256).decode()})
+                return False
     return True
+
+
+_named_calls = [0]
 
 
 # ------------------------------------------------------------------------------ case kinds
